@@ -84,7 +84,8 @@ def handle (fn : String) (a : Json) : R Json := do
                ("dispatched", ofBool (Spec.dispatched rq)), ("failed", ofBool (Spec.failed rq))])
   | "shape" =>
     pure (obj [("readWrapsBatchValidation", ofBool VgiVerif.Gen.HttpStatus.tables.readWrapsBatchValidation),
-               ("readWrapsKwargs", ofBool VgiVerif.Gen.HttpStatus.tables.readWrapsKwargs)])
+               ("readWrapsKwargs", ofBool VgiVerif.Gen.HttpStatus.tables.readWrapsKwargs),
+               ("readWrapsEmptyStream", ofBool VgiVerif.Gen.HttpStatus.tables.readWrapsEmptyStream)])
   | _ => throw s!"unknown function C15.{fn}"
 
 end VgiVerif.C15.Driver
